@@ -5,7 +5,9 @@ package main
 
 import (
 	"fmt"
+	"go/constant"
 	"go/token"
+	"math/big"
 	"strings"
 
 	"golang.org/x/tools/go/ssa"
@@ -66,22 +68,27 @@ func ruleWAddr(c *Ctx) {
 		want := "append(%*ssa.MakeSlice#0, p0[0:len(p0)]) ; checksum(" + cp + ") ; append(" + cp + ", alloc#0[0:len(alloc#0)]) ; Encode(APP(" + cp + ", alloc#0[0:len(alloc#0)]))"
 		c.Check(got == want, "W-addr", "Base58EncodeMissingChecksum", fn.Pos(), "encodes input . checksum(input) (the checksum taken over a private copy of the whole input)", "Base58EncodeMissingChecksum no longer encodes input . checksum(input): "+got)
 	}
-	// address builder: version byte (0 or 111) then the hash
-	if fn := get("", "NewAddressFromPublicKeyHash"); fn != nil {
-		calls, stores, _ := termsOfCalls(fn)
-		okV := false
-		for _, s := range stores {
-			if s == "&alloc#0[0:1][0] := 111" {
-				okV = true
-			}
+	// address builders: version byte (0 on mainnet, 111 otherwise) then the hash, handed to the encoder
+	for _, name := range []string{"NewAddressFromPublicKeyHash", "NewAddressFromPublicKey"} {
+		fn := get("", name)
+		if fn == nil {
+			continue
 		}
-		okA := false
-		for _, cl := range calls {
-			if dynCallRe.ReplaceAllString(cl, "APP(") == "Base58EncodeMissingChecksum(APP(alloc#0[0:1], p0))" {
-				okA = true
+		for _, mainnet := range []bool{true, false} {
+			got, hashTerm := addressPayload(c, fn, mainnet, 0)
+			ver := "6f"
+			if mainnet {
+				ver = "00"
 			}
+			wantHash := "p0"
+			if name == "NewAddressFromPublicKey" {
+				wantHash = "github.com/libsv/go-bk/crypto.Hash160((*github.com/libsv/go-bk/bec.PublicKey).SerialiseCompressed(p0))"
+			}
+			ok, why, _ := layEqual(got, seqOf(&Lay{K: "const", S: ver}, raw("HASH")), nil)
+			okHash := strings.HasPrefix(hashTerm, wantHash)
+			c.Check(ok && okHash, "W-addr", fmt.Sprintf("%s/mainnet=%v", name, mainnet), fn.Pos(), "payload = version byte 0x"+ver+" followed by the hash",
+				fmt.Sprintf("the address payload is no longer version byte 0x%s . hash: %v (%s), hash taken from %s", ver, got, why, shorten(hashTerm, 120)))
 		}
-		c.Check(okV && okA, "W-addr", "NewAddressFromPublicKeyHash", fn.Pos(), "payload = one version byte followed by the hash", "the address payload is no longer version byte . hash")
 	}
 	// validator: checksum over bytes 0..21, embedded checksum = bytes 21..25, both compared
 	if fn := get("*a25", "computeChecksum"); fn != nil {
@@ -110,25 +117,94 @@ func ruleWAddr(c *Ctx) {
 	}
 	// decoder: 25 bytes, hash = bytes 1..21
 	if fn := get("", "addressToPubKeyHashStr"); fn != nil {
-		_, _, rets := termsOfCalls(fn)
-		n, okSlices := 0, true
-		for _, r := range rets {
-			if strings.HasPrefix(r, "encoding/hex.EncodeToString(") {
-				n++
-				if !strings.Contains(r, "[1:(len(") || !strings.HasSuffix(r, " - 4)])") {
-					okSlices = false
+		paths, err := feasiblePaths(fn, 500)
+		if err != nil {
+			c.Undecided("W-addr", "addressToPubKeyHashStr", fn.Pos(), err.Error())
+			return
+		}
+		n, okSlices, okLen := 0, true, true
+		detail := ""
+		for _, d := range paths {
+			if d.EndKind != "return" || len(d.Ret.Results) != 2 {
+				continue
+			}
+			if et := d.Env.Term(d.Ret.Results[1]); !(et.K == "const" && et.C == nil) {
+				continue
+			}
+			n++
+			rt := d.Env.Term(d.Ret.Results[0])
+			call, isCall := rt.V.(*ssa.Call)
+			if !isCall || call.Call.StaticCallee() == nil || call.Call.StaticCallee().String() != "encoding/hex.EncodeToString" || len(rt.Args) != 1 {
+				okSlices = false
+				detail = "a success return is not the hex form of a slice of the payload: " + atomName(rt)
+				continue
+			}
+			sl := flattenSlice(rt.Args[0])
+			if sl.K != "slice" || !strings.Contains(atomName(sl.Args[0]), "base58.Decode(p0)") {
+				okSlices = false
+				detail = "the hash is not cut out of the decoded payload: " + atomName(sl)
+				continue
+			}
+			asg := map[string]*big.Int{"len(" + sl.Args[0].String() + ")": big.NewInt(25)}
+			lo, ok1 := evalTerm(sl.Args[1], asg)
+			hi, ok2 := evalTerm(sl.Args[2], asg)
+			if !ok1 || !ok2 || lo.Int64() != 1 || hi.Int64() != 21 {
+				okSlices = false
+				detail = "the hash is taken from " + atomName(sl)
+			}
+			// the length test holds on this path
+			has := false
+			for _, pc := range d.Conds {
+				a, flip := canonAtom(atomName(pc.Cond))
+				if strings.HasPrefix(a, "(len(") && strings.HasSuffix(a, " == 25)") && pc.Truth != flip {
+					has = true
 				}
 			}
-		}
-		okLen := false
-		for _, b := range fn.Blocks {
-			if iff, ok := b.Instrs[len(b.Instrs)-1].(*ssa.If); ok {
-				t := canonTerm(newTermEnv().Term(iff.Cond))
-				if strings.HasPrefix(t, "(len(") && strings.HasSuffix(t, " != 25)") {
-					okLen = true
-				}
+			if !has {
+				okLen = false
 			}
 		}
-		c.Check(n == 2 && okSlices && okLen, "W-addr", "addressToPubKeyHashStr", fn.Pos(), "decoded payload must be 25 bytes; the hash is bytes 1..len-4", fmt.Sprintf("the decoder no longer takes bytes 1..21 of a 25-byte payload as the hash (%d hash returns, slices ok %v, length test %v)", n, okSlices, okLen))
+		c.Check(n >= 1 && okSlices && okLen, "W-addr", "addressToPubKeyHashStr", fn.Pos(), "decoded payload must be 25 bytes; the hash is bytes 1..21",
+			fmt.Sprintf("the decoder no longer takes bytes 1..21 of a 25-byte payload as the hash (%d success paths, slices ok %v, length test %v) %s", n, okSlices, okLen, detail))
 	}
+}
+
+// addressPayload: the bytes an address constructor hands to Base58EncodeMissingChecksum under a
+// valuation of its mainnet flag, with the hash operand named HASH; a constructor that delegates to
+// NewAddressFromPublicKeyHash(h, mainnet) is followed into it. Returns the term of the hash too.
+func addressPayload(c *Ctx, fn *ssa.Function, mainnet bool, depth int) (*Lay, string) {
+	w := newWEval(c.P, fn)
+	if len(fn.Params) < 2 {
+		return unk("no mainnet parameter"), ""
+	}
+	w.consts[fn.Params[1]] = constant.MakeBool(mainnet)
+	for _, b := range fn.Blocks {
+		for _, ins := range b.Instrs {
+			call, ok := ins.(*ssa.Call)
+			if !ok || call.Call.StaticCallee() == nil {
+				continue
+			}
+			switch call.Call.StaticCallee().Name() {
+			case "Base58EncodeMissingChecksum":
+				l := seqOf(w.eval(call.Call.Args[0]))
+				hash := ""
+				for _, it := range l.Items {
+					if it.K == "raw" {
+						hash = it.S
+						it.S = "HASH"
+					}
+				}
+				return l, hash
+			case "NewAddressFromPublicKeyHash":
+				if depth == 0 && call.Call.Args[1] == ssa.Value(fn.Params[1]) {
+					l, h := addressPayload(c, call.Call.StaticCallee(), mainnet, depth+1)
+					if h == "p0" {
+						h = w.term(call.Call.Args[0])
+					}
+					return l, h
+				}
+			}
+		}
+	}
+	return unk("no call to the Base58Check encoder"), ""
 }
